@@ -11,7 +11,9 @@ import (
 	"sort"
 	"sync"
 	"sync/atomic"
+	"time"
 
+	"verif/harness/internal/quiesce"
 	"verif/harness/internal/rep"
 	"verif/harness/internal/scen"
 )
@@ -179,6 +181,48 @@ func scenSig(sc *scen.Scenario) string {
 }
 
 func runtimeStack(b []byte) int { return runtime.Stack(b, true) }
+
+// guarded runs fn on a goroutine of its own and waits for it. If fn has not returned after grace, the goroutine's
+// wait state is looked at twice, one second apart: parked on a lock (mutex / rwmutex / semaphore) both times means
+// it is waiting for something only another goroutine could release — and when everything fn touches is private to
+// fn, nothing ever will. stuck reports that verdict (the goroutine is left behind); incon any other kind of delay.
+func guarded(grace time.Duration, fn func()) (stuck bool, state string, incon bool) {
+	done := make(chan struct{})
+	gid := make(chan int, 1)
+	go func() {
+		defer close(done)
+		gid <- quiesce.Self()
+		fn()
+	}()
+	id := <-gid
+	select {
+	case <-done:
+		return false, "", false
+	case <-time.After(grace):
+	}
+	self := quiesce.Self()
+	lockState := func(s string) bool {
+		return s == "sync.Mutex.Lock" || s == "sync.RWMutex.RLock" || s == "sync.RWMutex.Lock" || s == "semacquire"
+	}
+	for try := 0; try < 20; try++ {
+		s1 := quiesce.Snap(self).States[id]
+		select {
+		case <-done:
+			return false, "", false
+		case <-time.After(time.Second):
+		}
+		s2 := quiesce.Snap(self).States[id]
+		select {
+		case <-done:
+			return false, "", false
+		default:
+		}
+		if s1 == s2 && lockState(s1) {
+			return true, s1, false
+		}
+	}
+	return false, "", true
+}
 
 // setGCOff switches the collector off and returns the function that restores it.
 func setGCOff() func() {
